@@ -187,7 +187,7 @@ structure Op where
 
 def parseOp (toks : List String) : Option Op :=
   match toks with
-  | "u" :: k :: fs :: fa :: "T" :: rest =>
+  | _ :: k :: fs :: fa :: "T" :: rest =>
     let cfgToks := [k, fs, fa]
     match parseTyT (rest.length + 1) rest with
     | some (ty, "I" :: r2) =>
@@ -279,24 +279,67 @@ def inputFeatures (c : Cfg) : Fields → Obj → List String
 def dedup (l : List String) : List String :=
   l.foldl (fun acc x => if acc.contains x then acc else acc ++ [x]) []
 
-def runLine (r : Report) (sec : Nat) (l : Line) : Report :=
-  match parseOp l.op with
-  | none => r.mismatch sec l.idx "bad-op" (joinSp l.op)
-  | some op => Id.run do
+/-- significant digits of the mantissa of a number literal (float64 carries 15 of them exactly) -/
+def sigDigits (s : Str) : Nat :=
+  ((dropWhileL (fun c => c = '0') ((s.takeWhile (fun c => c ≠ 'e' && c ≠ 'E')).filter isDigit))).length
+
+/-- the document a front end (YAML / TOML → JSON, conf's key lowering) hands on holds the values that were supplied:
+same structure, strings, bools and nulls, numbers with the same value (literals beyond 15 significant digits are rounded by
+the front ends' float64 and are not compared); `keyEq` compares object keys (conf lowers them) -/
+def docEquivF (keyEq : Str → Str → Bool) (nullAsEmpty : Bool) : Nat → J → J → Bool
+  | 0, _, _ => false
+  | fuel + 1, a, b =>
+    match a, b with
+    | .null, .null => true
+    -- KNOWN DEFECT of the YAML front end (internal/encoding.toStringKeyMap: `lang.Repr(nil)`): a YAML null is handed on as
+    -- the empty string; tolerated here and counted, see Props.yaml_null_witness and fixes/C08-yaml-null-becomes-empty-string.patch
+    | .null, .str [] => nullAsEmpty
+    -- a number literal beyond the float64 range is not a number to YAML: it is handed on as the text it was
+    | .num x, .str y => x == y && (match parseFloat 64 x with | .error .overflow => true | _ => false)
+    | .bool x, .bool y => x == y
+    | .str x, .str y => x == y
+    | .num x, .num y =>
+      x == y || sigDigits x > 15 ||
+        (match floatSyntax x, floatSyntax y with
+         | .ok (.fin p), .ok (.fin q) => Dec.eqv p q
+         | _, _ => false)
+    | .arr x, .arr y => x.length == y.length && (x.zip y).all fun pq => docEquivF keyEq nullAsEmpty fuel pq.1 pq.2
+    | .obj x, .obj y =>
+      -- every binding handed on comes from a supplied binding with an equal key, and no supplied key is lost
+      (canonObj y).all (fun kv => (canonObj x).any fun kv' => keyEq kv'.1 kv.1 && docEquivF keyEq nullAsEmpty fuel kv'.2 kv.2)
+      && (canonObj x).all (fun kv' => (canonObj y).any fun kv => keyEq kv'.1 kv.1)
+    | _, _ => false
+
+def jSize : J → Nat
+  | .arr l => 1 + jSizeL l
+  | .obj m => 1 + jSizeO m
+  | _ => 1
+where
+  jSizeL : List J → Nat
+    | [] => 0
+    | j :: rest => jSize j + jSizeL rest
+  jSizeO : List (Str × J) → Nat
+    | [] => 0
+    | (_, j) :: rest => jSize j + jSizeO rest
+
+def docEquiv (keyEq : Str → Str → Bool) (nullAsEmpty : Bool) (a b : J) : Bool :=
+  docEquivF keyEq nullAsEmpty (jSize a + jSize b + 2) a b
+
+/-- one unmarshal of the document `doc` under `op.cfg` into `op.ty`, compared with the observation `obs` -/
+def runU (r : Report) (sec : Nat) (l : Line) (op : Op) (mode : String) (obs : List String) : Report := Id.run do
     let mut r := { r with ops := r.ops + 1 }
     let res := unmarshal op.cfg op.ty op.input
     r := r.addCover (resultLabel res)
-    r := r.addCover (if op.cfg.canonical then "mode-header" else if op.cfg.fromArray then "mode-form"
-                     else if op.cfg.fromString then "mode-fromstring" else "mode-json")
+    r := r.addCover mode
     for f in dedup (tyFeatures op.ty) do r := r.addCover f
     match op.ty, op.input with
     | .struct fs, .obj m => for f in dedup (inputFeatures op.cfg.repaired fs m) do r := r.addCover f
     | _, _ => r := r.addCover "in-toplevel-not-object"
-    let impl := joinSp l.obs
+    let impl := joinSp obs
     let cmpl := Spec.complete op.cfg op.ty op.input
     let outside := match res with | .error .outside => true | _ => false
     if outside then r := r.addCover "model-outside(panic-monitor-only)"
-    match l.obs with
+    match obs with
     | "ok" :: vt =>
       match parseValT (vt.length + 1) vt with
       | some (v, []) =>
@@ -331,6 +374,42 @@ def runLine (r : Report) (sec : Nat) (l : Line) : Report :=
       | _ => r := r.mismatch sec l.idx (resultLabel res) impl
     | _ => r := r.mismatch sec l.idx "unparsable-observation" impl
     return r
+
+def cfgMode (c : Cfg) : String :=
+  if c.canonical then "mode-header" else if c.fromArray then "mode-form"
+  else if c.fromString then "mode-fromstring" else "mode-json"
+
+def runLine (r : Report) (sec : Nat) (l : Line) : Report :=
+  match parseOp l.op with
+  | none => r.mismatch sec l.idx "bad-op" (joinSp l.op)
+  | some op => runU r sec l op (cfgMode op.cfg) l.obs
+
+/-- `uy` / `ut`: the document written as YAML / TOML through `UnmarshalYamlBytes` / `UnmarshalTomlBytes`.  Observation:
+`D <the JSON document the front end produced | none> R <result>`.  Monitors: a panic; the produced document holds the
+supplied values (`docEquiv`); then every monitor of `u` on the produced document. -/
+def runFrontEnd (r : Report) (sec : Nat) (l : Line) (mode : String) : Report :=
+  match parseOp l.op with
+  | none => r.mismatch sec l.idx "bad-op" (joinSp l.op)
+  | some op =>
+    match l.obs with
+    | "PANIC" :: _ => (r.violation sec l.idx s!"panic op=[{joinSp l.op}] impl=[{joinSp l.obs}]")
+    | "D" :: "none" :: "R" :: rest =>
+      -- the front end refused the text (a number outside its range, …): the unmarshaller must refuse too
+      let r := { r with ops := r.ops + 1 }
+      let r := (r.addCover mode).addCover "frontend-refused-the-text"
+      if rest = ["err", "convert"] then r
+      else r.violation sec l.idx s!"accepted-although-the-front-end-refused op=[{joinSp l.op}] impl=[{joinSp l.obs}]"
+    | "D" :: dt =>
+      match parseJT (dt.length + 1) dt with
+      | some (doc, "R" :: obs) =>
+        let yaml := l.op.head? = some "uy"
+        let r := if docEquiv (· == ·) false op.input doc then r.addCover "frontend-document-equivalent"
+          else if yaml && docEquiv (· == ·) true op.input doc then
+            r.addCover "frontend-yaml-null-became-empty-string(known-defect)"
+          else r.violation sec l.idx s!"front-end-changed-the-supplied-values op=[{joinSp l.op}] impl=[{joinSp l.obs}]"
+        runU r sec l { op with input := doc } mode obs
+      | _ => r.mismatch sec l.idx "unparsable-observation" (joinSp l.obs)
+    | _ => r.mismatch sec l.idx "unparsable-observation" (joinSp l.obs)
 
 /-! ### `p`: one request through `httpx.Parse`; `pp` / `pf` / `ph` / `pj`: the same request through `ParsePath` /
 `ParseForm` / `ParseHeaders` (→ `encoding.ParseHeaders`) / `ParseJsonBody` alone
@@ -508,7 +587,11 @@ def runPLine (r : Report) (sec : Nat) (l : Line) : Report :=
   | _, _ => r.mismatch sec l.idx "bad-op" (joinSp l.op)
 
 def runSection (r : Report) (s : Section) : Report :=
-  s.lines.foldl (fun r l => if (l.op.head?.bind selOf).isSome then runPLine r s.idx l else runLine r s.idx l) r
+  s.lines.foldl (fun r l => if (l.op.head?.bind selOf).isSome then runPLine r s.idx l
+    else if l.op.head? = some "uy" then runFrontEnd r s.idx l "mode-yaml(UnmarshalYamlBytes)"
+    else if l.op.head? = some "ut" then runFrontEnd r s.idx l "mode-toml(UnmarshalTomlBytes)"
+    else if l.op.head? = some "u" then runLine r s.idx l
+    else r.mismatch s.idx l.idx "bad-op" (joinSp l.op)) r
 
 def driver (secs : List Section) : Report := secs.foldl runSection {}
 
